@@ -46,6 +46,7 @@ def run(ctx, rep):
     rep.guarded('D3.d3_d4', d3_d4, ctx, rep)
     rep.guarded('D5.d5', d5, ctx, rep)
     rep.guarded('D6.d6', d6, ctx, rep)
+    rep.guarded('D7.d7_nested', d7_nested, ctx, rep)
 
 
 # -------------------------------------------------------------------- D1 context manager
@@ -600,3 +601,37 @@ def _binder(ctx):
     b = AliasAnalysis.__new__(AliasAnalysis)
     b.prog = ctx.prog
     return b
+
+
+# --------------------------------------------------------------------------- D7 no nested scope on the same model
+def d7_nested(ctx, rep):
+    """A @random_state method that (directly or through undecorated helpers) calls another @random_state method of the same
+    object opens the scope twice: the inner scope restarts from the model's stored state (replaying numbers the outer scope already
+    drew) and on exit the outer scope overwrites what the inner one stored, so the stream does not advance."""
+    prog = ctx.prog
+    rep.rule('D7.nested', 'no @random_state method reaches another @random_state method of the same object (the scopes do not nest on one model)')
+    decorated = [f for f in prog.functions.values() if RANDOM_STATE_DECORATOR in f.decorators and f.cls is not None and f.self_name]
+    n = 0
+    for m in sorted(decorated, key=lambda f: f.qualname):
+        seen, todo = {m.qualname}, [(m, [m.short])]
+        hit = None
+        while todo and hit is None:
+            f, path = todo.pop()
+            for c in walk_no_nested(f.node):
+                if not (isinstance(c, ast.Call) and isinstance(c.func, ast.Attribute) and isinstance(c.func.value, ast.Name) and c.func.value.id == f.self_name):
+                    continue
+                g = m.cls.lookup(c.func.attr)
+                if g is None or g.qualname in seen or g.kind != 'method':
+                    continue
+                seen.add(g.qualname)
+                if RANDOM_STATE_DECORATOR in g.decorators:
+                    hit = (c, path + [g.short])
+                    break
+                todo.append((g, path + [g.short]))
+        n += 1
+        if hit:
+            rep.bad('D7.nested', m, hit[0], f'{m.short} runs under @random_state and reaches {hit[1][-1]}, also under @random_state, on the same object: the inner scope replays the '
+                    'model\'s stored state and the outer exit discards its advance (successive seeded calls repeat)', construct=f'{m.cls.name}.{m.name}: nested scope',
+                    path=' -> '.join(hit[1]))
+        else:
+            rep.ok('D7.nested', m, m.node.name, 'no nested scope on self', construct=f'{m.cls.name}.{m.name}: nested scope')
